@@ -16,6 +16,7 @@ var checks = map[string]func(*core.Ctx){
 	"C12": props.C12,
 	"C17": props.C17,
 	"C18": props.C18,
+	"C19": props.C19,
 	"C02": props.C02,
 	"C03": props.C03,
 }
